@@ -442,33 +442,32 @@ def compare(case, out, m):
     return None
 
 
-SMALL_GRAPH = 80
-
-
-def _uf_labels(i, j):
-    """independent oracle for big graphs: union-find, components numbered by lowest vertex"""
-    if len(i) == 0:
-        return []
-    n = max(max(i), max(j)) + 1
-    p = list(range(n))
-
-    def f(x):
-        while p[x] != x:
-            p[x] = p[p[x]]
-            x = p[x]
-        return x
-    for a, b in zip(i, j):
-        ra, rb = f(a), f(b)
-        if ra != rb:
-            p[max(ra, rb)] = min(ra, rb)
-    num = {}
-    out = []
-    for v in range(n):
-        r = f(v)
-        if r not in num:
-            num[r] = len(num)
-        out.append(num[r])
-    return out
+def _forest_certificate(i, j, lab):
+    """spanning forest of the undirected edge list (BFS from the lowest unvisited vertex): par, index of the
+    edge to the parent, depth, and for every label the root carrying it.  Only VERIFIED by the extracted
+    Spec.LabelGraph.acc_cert_ok (soundness: Proofs/AccCertC15.v), so nothing here is trusted."""
+    n = len(lab)
+    adj = [[] for _ in range(n)]
+    for k, (a, b) in enumerate(zip(i, j)):
+        if a < n and b < n:
+            adj[a].append((b, k)); adj[b].append((a, k))
+    par = list(range(n)); eidx = [0] * n; dep = [0] * n
+    seen = [False] * n
+    top = max(lab) if lab else 0
+    rep = [0] * (top + 1) if top <= 4 * n + 16 else None
+    for r in range(n):
+        if seen[r]:
+            continue
+        seen[r] = True
+        if rep is not None:
+            rep[lab[r]] = r
+        queue = [r]
+        for v in queue:
+            for w, k in adj[v]:
+                if not seen[w]:
+                    seen[w] = True; par[w] = v; eidx[w] = k; dep[w] = dep[v] + 1
+                    queue.append(w)
+    return par, eidx, dep, rep
 
 
 def check(ctx, cases, outs):
@@ -486,11 +485,15 @@ def check(ctx, cases, outs):
             res[k] = "%s: a second call on an equal input in the same process gave a different result" % fn
             continue
         if fn == "acc":
-            if len(c["i"]) <= SMALL_GRAPH and (not c["i"] or max(c["i"] + c["j"]) <= SMALL_GRAPH):
-                items.append((k, "entry_check_acc", [c["i"], c["j"], o["lab"]]))
+            lab = o["lab"]
+            if not c["i"]:
+                items.append((k, "entry_check_acc", [[], [], lab, [], [], [], []]))
+                continue
+            par, eidx, dep, rep = _forest_certificate(c["i"], c["j"], lab)
+            if rep is None:
+                res[k] = "all_connected_components: label values far outside 0..n-1: %s" % (str(lab)[:200],)
             else:
-                if o["lab"] != _uf_labels(c["i"], c["j"]):
-                    res[k] = "all_connected_components: labels are not the connected components of the edge list"
+                items.append((k, "entry_check_acc", [c["i"], c["j"], lab, par, eidx, dep, rep]))
         elif fn == "relabel":
             items.append((k, "entry_check_relabel", [c["img"], o["img"], o["n"]]))
         elif fn == "neighbors":
@@ -503,7 +506,7 @@ def check(ctx, cases, outs):
             else:
                 items.append((k, "entry_check_euler", _euler_args(c) + [o["w4"]]))
     msg = {"entry_check_acc": "all_connected_components: labels are not the partition into connected components "
-                              "(Spec.LabelGraph.acc_ok false)",
+                              "(Spec.LabelGraph.acc_cert_ok rejects the labelling with a spanning-forest certificate)",
            "entry_check_relabel": "relabel: not an order-preserving renumbering to 1..n (Spec.LabelGraph.relabel_ok false)",
            "entry_check_neighbors": "find_neighbors: lists differ from the 8-adjacent other labels "
                                     "(Spec.LabelGraph.neighbors_ok false)",
